@@ -253,6 +253,10 @@ Definition gstep (c : cfg) (g : gst) (e : ev) : option gst :=
       match getj g j with
       | Some jb => match jph jb with
                    | TWaiting | TCancelling => if jstarted jb then None else Some (set_job g (free g) j (job_start jb))
+                   | TKilled =>
+                       (* close() gave up a job that had a worker: its run-function was handed to the pool and cannot be recalled,
+                          it may still begin (thread / process backends); a job killed while queued was never launched *)
+                       if mem_st RUNNING (jhist jb) && negb (jstarted jb) then Some (set_job g (free g) j (job_start jb)) else None
                    | _ => None
                    end
       | None => None
